@@ -151,7 +151,7 @@ Wake ==
              ELSE Terminate(NoOut) /\ UNCHANGED <<k, i>>
     /\ UNCHANGED <<seq, n, res, stopflag, cached, last, fm, hook>>
 
-(* DEVIATION of the code as it stood before cc0eb0a (never part of SNext; used by Trace_Sequencer and by     *)
+(* DEVIATION of the code before cc0eb0a (never part of SNext; used by Trace_Sequencer and by        *)
 (* MC_Sequencer_asimpl.cfg, which is expected to violate StopNoNewStep): the flag is examined    *)
 (* only after a call, so a stop that arrives during the wait lets the next call begin           *)
 Dev_LateStop ==
